@@ -2,10 +2,14 @@
 ASSUMPTIONS = ['jcmp/h_laws: storage kinds null, bool, int64, uint64, empty_object, float64 (non-NaN), half_float (non-NaN), short_str <= 3 chars (untagged), short_str tagged bigint holding one digit; held directly (values behind const_json_ref/json_ref: CBMC does not fold the storage kind through the stored pointer, the recursive unwrapping then explodes - stated outside the bound)',
                'jcmp: transitivity of == across int64/double is not part of the property and not asserted']
 STUB_NOTES = ['strtod: exact model for one-digit strings (number-tagged text)', 'values are built by the real constructors']
+KN = ['null', 'bool', 'int64', 'uint64', 'empty_object', 'float64', 'half_float', 'short_str', 'bigint_str']
 def jobs(tier):
     J = []
-    for k in range(9):
-        J.append(dict(id='laws_k%d' % k, harness='h_laws', props=['C09'], unwind=2, defs=dict(KSET_A=k, RSET_A=0, RBMAX=0), timeout=600, mem_gb=4,
-                      desc='compare laws: antisymmetry, reflexivity, ==/!=/</<=/>/>= agree with compare; no unreachable/assert',
-                      bound='lhs kind %d x all 9 rhs kinds (values held directly, not behind json_ref), all 64-bit payloads, strings <= 3 chars' % k))
+    for a in range(9):
+        for b in range(9):
+            if 7 in (a, b) and tier != 'thorough':
+                continue   # untagged short strings: the string comparison / number conversion paths need > 5 min per pair (thorough tier)
+            J.append(dict(id='laws_%s_%s' % (KN[a], KN[b]), harness='h_laws', props=['C09'], unwind=6, defs=dict(KSET_A=a, RSET_A=0, RBMAX=0, KSET_B=b), timeout=1500 if 7 in (a, b) else 300, mem_gb=6,
+                          desc='compare laws: antisymmetry, reflexivity, ==/!=/</<=/>/>= agree with compare; no unreachable/assert',
+                          bound='lhs %s x rhs %s (values held directly, not behind json_ref), all 64-bit payloads, strings <= 3 chars' % (KN[a], KN[b])))
     return J
